@@ -354,6 +354,32 @@ func Run(cfg *hx.Config) error {
 	for L := 0; L <= depth; L++ {
 		enumerate(L, func(ops []hx.T) { emit(fmt.Sprintf("exhaustive-%d", L), ops, nil) })
 	}
+	// capacity boundaries of the id slice (make(.., 0, 128), doubling): n joins to one group,
+	// then removals at the first / middle / last position, pushes in between
+	for _, n := range []int{1, 2, 3, 127, 128, 129, 130, 255, 256, 257} {
+		for variant := 0; variant < 4; variant++ {
+			var ops []hx.T
+			for i := 1; i <= n; i++ {
+				ops = append(ops, hx.C("OAdd", 1, 1, i))
+			}
+			pos := []int{1, n, (n + 1) / 2, 1}[variant]
+			ops = append(ops, hx.C("OLeave", 1, 1, pos), hx.C("OPush", 1))
+			switch variant {
+			case 0: // oldest leaves again and again
+				ops = append(ops, hx.C("OLeave", 1, 1, 2), hx.C("OPush", 1), hx.C("OLeave", 1, 1, 3), hx.C("OPush", 1))
+			case 1:
+				ops = append(ops, hx.C("OLeave", 1, 1, 1), hx.C("OPush", 1))
+			case 2:
+				ops = append(ops, hx.C("OAdd", 1, 1, n+1), hx.C("OLeave", 1, 1, 1), hx.C("OPush", 1))
+			default: // first-in-first-out churn: head leaves, a new id joins, head leaves
+				for j := 2; j <= 6; j++ {
+					ops = append(ops, hx.C("OAdd", 1, 1, n+j), hx.C("OLeave", 1, 1, j))
+				}
+				ops = append(ops, hx.C("OPush", 1))
+			}
+			emit("capacity", ops, []string{fmt.Sprintf("capacity-%d", n)})
+		}
+	}
 	for i := 0; i < cfg.N; i++ {
 		maxLen := 12
 		if i%4 == 3 {
